@@ -23,8 +23,8 @@ LEAN_MODULES = ["MpfVerif.Props.C09"]
 PROPS_FILE = "MpfVerif/Props/C09.lean"
 GEN = []
 MANIFEST = {
-  "text": "Proof on a Lean model of the light priority stack (mpf/devices/light.py), its hardware-target computation with both suppression shortcuts, the fade-out delays, and the software fade stepping of LightPlatformDirectFade: for every sequence of color/remove/clear commands, delay firings and clock advances the stack stays strictly sorted by (priority, key) with unique keys; the logical colour is that of the top entry, interpolated with exact integer arithmetic and never outside its endpoints; a new fading entry starts from the colour of the entries that do not sort above it; removing a key (or all keys) restores exactly the stack without it (off when empty); the last hardware target colour sent always equals the target of the current stack (so the suppression shortcuts never lose an update) and equals the logical colour once all fades and fade-outs are over; a channel has at most one live stepping task, it belongs to the latest command, and when none is live the last commanded brightness is the latest command's target. The model is tied to the real Light on the direct (VirtualLight), software-faded (DriverLight on real Drivers) and batched (real PlatformBatchLightSystem) back ends by a correspondence run on every check, with a model-independent oracle on the hardware commands.",
-  "note": "Trusted: Lean kernel + {propext, Classical.choice, Quot.sound}; the hand-written model Model/Light.lean (validated only by differential runs); float interpolation in the implementation is compared (exact on the 1/8 s grid for the stack, 1e-9 for channel brightness), not proved; colour correction / brightness factor are applied pointwise outside the model; RGBW styles, hardware-fading platforms (max_fade_ms > 0) and the batch system's grouping are outside the model (the batch back end is covered by the oracle only).",
+  "text": "Proof on a Lean model of the light priority stack (mpf/devices/light.py), its hardware-target computation with both suppression shortcuts, the fade-out delays, and the software fade stepping of LightPlatformDirectFade: for every sequence of color/remove/clear commands, delay firings and clock advances the stack stays strictly sorted by (priority, key) with unique keys; the logical colour is that of the top entry, interpolated with exact integer arithmetic and never outside its endpoints; a new fading entry starts from the colour of the entries that do not sort above it; removing a key (or all keys) restores exactly the stack without it (off when empty); the last hardware target colour sent always equals the target of the current stack (so the suppression shortcuts never lose an update) and equals the logical colour once all fades and fade-outs are over; a channel has at most one live stepping task, it belongs to the latest command, and when none is live the last commanded brightness is the latest command's target; and, on a model of PlatformBatchLightSystem (dirty set swapped out by the sender, awaited update callback, re-scheduling of running fades), for every interleaving of set_fade commands with scheduler iterations, sender computations and callback starts/completions no dirty light is ever lost and at rest the platform has received the target brightness of every light's latest fade. The models are tied to the real Light on the direct (VirtualLight), software-faded (DriverLight on real Drivers) and batched (real PlatformBatchLightSystem) back ends by a correspondence run on every check, with a model-independent oracle on the hardware commands.",
+  "note": "Trusted: Lean kernel + {propext, Classical.choice, Quot.sound}; the hand-written model Model/Light.lean (validated only by differential runs); float interpolation in the implementation is compared (exact on the 1/8 s grid for the stack, 1e-9 for channel brightness), not proved; colour correction / brightness factor are applied pointwise outside the model; the RGBW channel mapping (min_rgb / duck_rgb / white_only) is checked by the oracle on a real RGBW light, not modelled; hardware-fading platforms (max_fade_ms > 0), the batch system's poll sleep and sequential grouping (modelled as: a flush may happen whenever the list is non-empty) and its _last_brightness cache are abstracted.",
   "technique": "Lean 4 theorems (invariants by induction over all operation sequences) on a hand model + differential correspondence with real Light devices on three real back ends + hardware-output oracle",
   "translated": False,
  }
@@ -32,7 +32,10 @@ RULE = ("a case = a machine variant (update rate 8/4/2 Hz, with or without a col
         "4-14 commands (color with fade 0..16 ticks incl. non-dyadic, priorities 0..3 biased to ties, keys ''/a..d, "
         "explicit past start_time; remove with/without fade-out; clear; an add-then-remove probe; bursts inside one "
         "callback) at gaps of 0..20 ticks biased to land inside running fades, on fade ends and on fade-out ends, applied "
-        "to 4 real lights (RGB/single x direct/software-faded); every tick the logical colour, the stack and the channel "
+        "to 5 real lights (RGB/single x direct/software-faded, plus an RGBW light in one of the three white styles - oracle "
+        "only), and in a second stream to RGB/single lights on a batched test platform (real PlatformBatchLightSystem, slow "
+        "awaited callback, batch size 2) whose marks, scheduler iterations, computations and callback starts/ends are "
+        "replayed on the batch model; every tick the logical colour, the stack and the channel "
         "state are compared with the model.  non-trivial = the history has a command landing inside a running fade or a "
         "fade-out, or a same-priority tie, or a refused lower-priority re-issue; distinct = canonical JSON of the case")
 TRUSTED = [
@@ -40,22 +43,23 @@ TRUSTED = [
     "on distinct (priority, key), DelayManager/asyncio timers (their firing order at one instant is taken from the run), "
     "Driver.enable/disable between DriverLight and the wrapped platform driver",
     "Model/Light.lean is hand-written; tied to mpf/devices/light.py, light_platform_interface.py, driver_light_platform.py, "
-    "virtual.py by correspondence on every run; platform_batch_light_system.py by the oracle only",
+    "virtual.py by correspondence on every run; Model/BatchLight.lean tied to platform_batch_light_system.py the same way",
 ]
 ASSUMPTIONS = ["priorities are non-negative ints, keys are str, colours are RGB triples 0..255; times on the 1/8 s grid",
                "colour correction and brightness factor are pointwise functions of the emitted colour (applied outside the model)",
-               "RGBW lights (white_only/min_rgb/duck_rgb) and platforms with hardware fades are not exercised"]
+               "RGBW lights are checked against the documented channel mapping by the oracle only; platforms with hardware fades are not exercised"]
 
 TICK = 0.125
 KEYS = ["", "a", "b", "c", "d", "zz"]
 COLORS = [(255, 0, 0), (0, 255, 0), (0, 0, 255), (255, 255, 255), (0, 0, 0), (100, 100, 100), (230, 25, 7), (1, 2, 3),
           (254, 128, 127), (50, 200, 50)]
-LIGHTS = [("d3", 3, "direct"), ("d1", 1, "direct"), ("s3", 3, "soft"), ("s1", 1, "soft")]
+LIGHTS = [("d3", 3, "direct"), ("d1", 1, "direct"), ("s3", 3, "soft"), ("s1", 1, "soft"), ("w4", 4, "rgbw")]
+ORDER = {1: ["white"], 3: ["red", "green", "blue"], 4: ["red", "green", "blue", "white"]}
 BATCH_LIGHTS = [("b3", 3, "batch"), ("b1", 1, "batch")]
 
 
-def config_yaml(hz, profile, batch=False):
-    s = "mpf:\n  default_light_hw_update_hz: %d\n" % hz
+def config_yaml(hz, profile, batch=False, rgbw="duck_rgb"):
+    s = "mpf:\n  default_light_hw_update_hz: %d\n  rgbw_white_behavior: %s\n" % (hz, rgbw)
     if profile:
         s += ("light_settings:\n  default_color_correction_profile: p1\n  color_correction_profiles:\n    p1:\n"
               "      gamma: 2.0\n      whitepoint: [0.9, 0.8, 1.0]\n      linear_slope: 0.75\n      linear_cutoff: 0.1\n")
@@ -65,7 +69,9 @@ def config_yaml(hz, profile, batch=False):
     s += ("lights:\n  d3: {number: 1, subtype: led}\n  d1: {number: 2, subtype: matrix}\n"
           "  s1: {number: c1, subtype: matrix, platform: drivers}\n"
           "  s3:\n    type: rgb\n    channels:\n      red: {number: c2, platform: drivers}\n"
-          "      green: {number: c3, platform: drivers}\n      blue: {number: c4, platform: drivers}\n")
+          "      green: {number: c3, platform: drivers}\n      blue: {number: c4, platform: drivers}\n"
+          "  w4:\n    type: rgbw\n    channels:\n      red: {number: 31}\n      green: {number: 32}\n"
+          "      blue: {number: 33}\n      white: {number: 34}\n")
     return s
 
 
@@ -106,7 +112,23 @@ def gen_case(r):
             ops.append([dt, "clear"])
         else:
             ops.append([dt, "probe", list(r.choice(COLORS))])
-    return {"hz": hz, "profile": r.random() < 0.25, "ops": ops, "tail": r.choice([20, 24, 40])}
+    return {"hz": hz, "profile": r.random() < 0.25, "ops": ops, "tail": r.choice([20, 24, 40]),
+            "rgbw": r.choice(["duck_rgb", "min_rgb", "white_only"])}
+
+
+def rgbw_channels(style, c):
+    """what an RGBW light's four channels show for the (corrected) colour c, per `rgbw_white_behavior` (independent of the
+    code: min_rgb = white duplicates the common part; duck_rgb = the common part moves to white; white_only = only pure
+    greys use the white channel)"""
+    r, g, b = c
+    m = min(c)
+    if style == "min_rgb":
+        return [r, g, b, m]
+    if style == "duck_rgb":
+        return [r - m, g - m, b - m, m]
+    if r == g == b:
+        return [0, 0, 0, r]
+    return [r, g, b, 0]
 
 
 def is_nontrivial(case):
@@ -183,7 +205,7 @@ class Run:
         self.chan_of = {}      # id(hw light object) -> (light name, channel index)
         for name, nchan, kind in self.lights:
             light = m.lights[name]
-            order = ["red", "green", "blue"] if nchan == 3 else ["white"]
+            order = ORDER[nchan]
             for i, col in enumerate(order):
                 hw = light.hw_drivers[col][0]
                 self.chan_of[id(hw)] = (name, i)
@@ -246,11 +268,11 @@ class Run:
     def hw_state(self, name, nchan, kind):
         """last commanded brightness per channel + number of live stepping tasks"""
         light = self.vm.machine.lights[name]
-        order = ["red", "green", "blue"] if nchan == 3 else ["white"]
+        order = ORDER[nchan]
         out = []
         for col in order:
             hw = light.hw_drivers[col][0]
-            if kind == "direct":
+            if kind in ("direct", "rgbw"):
                 out.append((hw.current_brightness, 0))
             elif kind == "soft":
                 live = 1 if (hw.task is not None and not hw.task.done()) else 0
@@ -315,6 +337,8 @@ class Run:
                 self.fail.append(("logical-not-top-entry", {"light": name, "t": t, "color": col, "want": want, "ref": ref}))
             # hardware = corrected logical colour, no stepping task left
             cc = self.chan_vals(nchan, self.corrected(light, col))
+            if kind == "rgbw":
+                cc = rgbw_channels(self.case.get("rgbw", "duck_rgb"), self.corrected(light, col))
             if kind == "batch" and t < max(self.busy_until, self.last_op_t) + self.batch_lag:
                 return      # a batch may be in flight and the system polls: the transmission lags the command
             if kind == "soft" and t < self.busy_until + self.interval - 1:
@@ -425,7 +449,7 @@ class Run:
         self.batch_lag = 0
         self.last_op_t = -1
         self.interval = {8: 1, 4: 2, 2: 4}[case["hz"]]
-        cfg = config_yaml(case["hz"], case["profile"])
+        cfg = config_yaml(case["hz"], case["profile"], rgbw=case.get("rgbw", "duck_rgb"))
         extra = None
         if self.batch:
             from harness.common import c09_batch
@@ -472,8 +496,8 @@ def model_check(ctx, model, run, case):
     """Feed each light's log to the model; compare every observation."""
     m = run.vm_lights
     for name, nchan, kind in run.lights:
-        if kind == "batch":
-            continue
+        if kind in ("batch", "rgbw"):
+            continue        # RGBW channel mapping is covered by the oracle only
         log = run.logs[name]
         interval = {8: 1, 4: 2, 2: 4}[case["hz"]]
         if model.ask("init %d %d" % (nchan, interval)) != "ok":
@@ -649,10 +673,15 @@ def one_case(ctx, model, case, batch=False):
                 ctx.count("hw_updates_suppressed_or_skipped")
     ctx.count("samples", run.samples)
     ctx.count("cases_batch" if batch else "cases_direct_soft")
+    if not batch:
+        ctx.count("rgbw_" + case.get("rgbw", "duck_rgb"))
     if run.fail:
         report_failures(ctx, case, run, batch)
     if model is not None and not batch:
         model_check(ctx, model, run, case)
+    if model is not None and batch:
+        from harness.common import c09_batch
+        c09_batch.model_check(ctx, model, run, case)
     return run
 
 
@@ -687,9 +716,9 @@ def run(ctx):
             have_batch = False
         if have_batch:
             for case in CORPUS:
-                one_case(ctx, None, case, batch=True)
+                one_case(ctx, model, case, batch=True)
             for i in range(ctx.n(120, 1000)):
-                one_case(ctx, None, gen_case(ctx.rng("batch", i)), batch=True)
+                one_case(ctx, model, gen_case(ctx.rng("batch", i)), batch=True)
     finally:
         if model is not None:
             model.close()
